@@ -73,7 +73,13 @@ func newEnvelope(g *hermes.GlobalVarsMain) *envelope {
 
 // check evaluates property C19 on the state after a Soiltemp call; reports the first failure of a run
 func (e *envelope) check(key string, day int, g *hermes.GlobalVarsMain) {
-	e.add(g.TSOIL[1][0], g.TBASE)
+	e.checkSurf(key, day, g, g.TSOIL[1][0])
+}
+
+// checkSurf: [surf] is the surface value admissible for that day — the imposed one, or (traced runs with a
+// readable weather file) the one the weather FILE gives with a correct normalisation
+func (e *envelope) checkSurf(key string, day int, g *hermes.GlobalVarsMain, surf float64) {
+	e.add(surf, g.TBASE)
 	if e.nonFinite < 0 && !finite(g.TSOIL[0][:g.N+1]...) {
 		e.nonFinite = day
 	}
@@ -285,6 +291,9 @@ func c19TraceLine(work, line string, lineNo int, r *rng, every int) {
 	havePre := false
 	days, emitted := 0, 0
 	minBD, maxBD := math.Inf(1), math.Inf(-1)
+	var wref weatherRef
+	refDays, radMissingDays, surfFails := 0, 0, 0
+	useRef := false
 	hermes.VerifProbe = func(stage string, zeit, subd int, wdt float64, g *hermes.GlobalVarsMain, w *hermes.WaterSharedVars, n *hermes.NitroSharedVars) {
 		switch stage {
 		case "evatra":
@@ -317,8 +326,29 @@ func c19TraceLine(work, line string, lineNo int, r *rng, every int) {
 				emit(c)
 				emitted++
 			}
+			// the surface value a correct weather normalisation allows on that day (from the weather FILE)
+			surf := g.TSOIL[1][0]
+			if wd, ok := wref.day(1900+pre.J, pre.TAG.Index+1); ok {
+				refDays++
+				temp := pre.TEMP[pre.TAG.Index]
+				if wd.tavgOK {
+					temp = wd.tavg
+				}
+				surf = surfaceRef(pre.LAI, pre.ETA, wd.par, temp, wd.tmin, wd.tmax, pre.TSOIL[0][0])
+				if wd.radMissing {
+					radMissingDays++
+				}
+				if obs := g.TSOIL[1][0]; !(math.Abs(obs-surf) <= 1e-9*(1+math.Abs(obs)+math.Abs(surf))) {
+					if surfFails == 0 {
+						oracleFail("surface-value:traced-line-%d day=%d date=%d-%03d surface=%v admissible=%v file: tmin=%v tmax=%v PAR=%v radiation-missing=%v; handed to Soiltemp: TMIN=%v TMAX=%v RAD=%v",
+							lineNo, days, 1900+pre.J, pre.TAG.Index+1, obs, surf, wd.tmin, wd.tmax, wd.par, wd.radMissing,
+							pre.TMIN[pre.TAG.Index], pre.TMAX[pre.TAG.Index], pre.RAD[pre.TAG.Index])
+					}
+					surfFails++
+				}
+			}
 			// the driver names the failing input after the soil FILE of that line (input density / stones / classes)
-			env.check(fmt.Sprintf("envelope:traced-line-%d", lineNo), days, g)
+			env.checkSurf(fmt.Sprintf("envelope:traced-line-%d", lineNo), days, g, surf)
 		}
 	}
 	// "@every=<n>" in a batch line: sampling of that run (harness metadata, not passed on)
@@ -326,13 +356,22 @@ func c19TraceLine(work, line string, lineNo int, r *rng, every int) {
 	for _, t := range splitArgs(line) {
 		if strings.HasPrefix(t, "@every=") {
 			every, _ = strconv.Atoi(t[len("@every="):])
+		} else if t == "@weather-ref=csv" { // the project reads weather/<WeatherFolder>/<fcode>.csv (layout 1)
+			useRef = true
 		} else if !strings.HasPrefix(t, "@") {
 			runArgs = append(runArgs, t)
 		}
 	}
+	if useRef {
+		wref = loadWeatherRef(work, runArgs, 999.9)
+		if wref == nil {
+			emit(jobj{"k": "noweatherref", "line": lineNo})
+		}
+	}
 	res := runProject(work, runArgs)
 	hermes.VerifProbe = nil
-	o := jobj{"k": "run", "line": lineNo, "success": res.Success, "err": res.Err, "days": days, "emitted": emitted}
+	o := jobj{"k": "run", "line": lineNo, "success": res.Success, "err": res.Err, "days": days, "emitted": emitted,
+		"weather_ref_days": refDays, "radiation_missing_days": radMissingDays, "surface_mismatch_days": surfFails}
 	if env != nil && days > 0 {
 		o["lo"], o["hi"], o["failed"], o["minbd"], o["maxbd"] = env.lo, env.hi, env.failed, minBD, maxBD
 	}
